@@ -1,7 +1,7 @@
 """Per-check metadata from which bin/mkmanifest writes MANIFEST.json."""
 
-HOOK_COMMITS = ["3c48510", "e2e1b97", "035de92", "8d2dfbb", "87c61cc", "5f32c19"]
-FIX_COMMITS = ["4036763", "5f5d3b9", "e0b60a8", "6cf1e6b", "6eae605", "8378524", "a71bd21", "3012537", "59d973f", "aa35bd8", "58124f2", "9fc07cf", "5316fe1", "f24111c"]
+HOOK_COMMITS = ["3c48510", "e2e1b97", "035de92", "8d2dfbb", "87c61cc", "5f32c19", "20f82c0"]
+FIX_COMMITS = ["4036763", "5f5d3b9", "e0b60a8", "6cf1e6b", "6eae605", "8378524", "a71bd21", "3012537", "59d973f", "aa35bd8", "58124f2", "9fc07cf", "5316fe1", "f24111c", "ed45003"]
 
 NOTES = ("One engine: TLA+ specifications under spec/, TLC for the design, Go harness (harness/) for conformance. "
          "Exit 2 (INFRA-ERROR) is never a verdict. known_findings.json lists recorded genuine defects.")
@@ -116,5 +116,11 @@ CHECKS = {
                 "window spans 1.5 batches; at the instant before caught-up is reported (hook) and at every quiescent point the follower's dataset "
                 "(collections, objects, fields, hooks, channels) must equal the leader's.",
         "note": "Monotone divergence assumed for initial follower logs. Leader kept quiescent between a (re)connect and the caught-up report. PUBLISH frames in the replication stream not exercised.",
+    },
+    "C20": {
+        "level": "model_checking",
+        "technique": "TLA+ Roam spec (neighbour sets over an integer haversine table, NODWELL, glob id patterns); TLC complete transition cover + simulation replayed into real servers with the ROAM fence on a channel, a webhook and a live connection (model->code conformance)",
+        "text": "TLC enumerates every configuration of 3 objects on a grid whose cell side is below and whose diagonal is above the radius, x id pattern (*, prefix, exact id, ?-patterns) x NODWELL, checks the statement of C20 (action property RoamExact, client-side invariant TrackedPairsExact) on the design and shows that the historical radius filter violates it; every transition (every SET of every object to every cell, every DEL) plus random long behaviours with 4-5 objects on 4x4/5x5 grids is executed on real servers and, after each SET, the nearby/faraway entries received on channel, webhook and live connection must equal TLC's (ids exactly, metres within 0.5 %). A mutation self-test corrupts expected values and must be detected.",
+        "note": "Trusted: the harness' own haversine/bounding-rectangle tables (mean sphere 6371008.8 m; every pair is >=5 % away from the radius). Points only, fence key = ROAM key, patterns with literals/*/? only, ROAM ... SCAN not exercised; entry order not asserted.",
     },
 }
